@@ -33,7 +33,7 @@ CLAIMS = {
     "C17": dict(text="Proved for the model: the structure after the `finally` block equals the original — every task's and workplace's dependency lists, "
                      "element for element, and no helper task left — for every model with in-range links and both settings of the due-time option "
                      "(C17_restored, C17_restored_eq); the block depends on the static structure only, which is why an exception at any step of the inner run "
-                     "cannot prevent it (validated on the real code by injecting an exception at observer calls). Logs stay aligned (C17_aligned); in "
+                     "cannot prevent it (validated on the real code by injecting an exception at observer calls). Logs stay aligned after a backward run from any aligned state, any flags, any due option (C17_aligned_general); helper tasks are new objects and start from constructor values (bwdStart_helper_slots), which does not matter when both initialisation flags are set (C17_backward_eq_old); in "
                      "the reversed logs of a run every WORKING index of an FS predecessor is below every WORKING index of its successor "
                      "(C17_reversed_order; link read from the predecessor's successor list, or from the successor's predecessor list under EdgeSym). "
                      "'A later forward simulate gives the same result' follows from C09_resim.",
